@@ -271,13 +271,18 @@ func lruSearchCache(args []string) int {
 	queries := []string{"list files", "List Files", "compress", "  compress ", "docker ps", "find text"}
 	for t := 1; t <= *ntr; t++ {
 		capacity := []int{1, 2, 3, 50}[r.Intn(4)]
-		sc := cache.NewSearchCache(capacity, 0)
+		ttl := []int{0, 0, 1, 2, 3}[r.Intn(5)] // lifetime in ticks (0: unlimited); it is the cache's own for good, whatever is called on it
+		var real time.Duration
+		if ttl > 0 {
+			real = time.Duration(ttl)*lruUnit + lruUnit/2
+		}
+		sc := cache.NewSearchCache(capacity, real)
 		emit := func(e *scEv) {
 			st := sc.Stats()
 			e.SH, e.SM, e.SE, e.SZ, e.Tr = st.Hits, st.Misses, st.Evictions, st.Size, t
 			w.emit(e)
 		}
-		emit(&scEv{Op: "reset", Cap: capacity})
+		emit(&scEv{Op: "reset", Cap: capacity, TTL: ttl})
 		on := true
 		for i := 0; i < *length; i++ {
 			q := queries[r.Intn(len(queries))]
@@ -292,6 +297,12 @@ func lruSearchCache(args []string) int {
 				}
 				sc.Put(q, o, rs)
 				emit(&scEv{Op: "scput", ID: id, Ans: listID(rs), NRes: n})
+			case x < 84 && ttl > 0 && x >= 76:
+				sc.VerifAdvance(lruUnit)
+				emit(&scEv{Op: "tick"})
+			case x < 88 && ttl > 0 && x >= 84:
+				n := sc.CleanupExpired()
+				emit(&scEv{Op: "cleanup", N: n})
 			case x < 88:
 				rs, ok := sc.Get(q, o)
 				e := &scEv{Op: "scget", ID: id, Hit: ok, NRes: len(rs)}
@@ -299,7 +310,7 @@ func lruSearchCache(args []string) int {
 					e.Ans = listID(rs)
 				}
 				emit(e)
-			case x < 93:
+			case x < 93 && x >= 88:
 				sc.Invalidate()
 				emit(&scEv{Op: "invalidate"})
 			case x < 97 && *invpat && capacity <= 3: // (small caches only: the specification tries every subset of the entries)
